@@ -22,6 +22,8 @@ type VC struct {
 	NOblig   int
 
 	addrFuns []string
+	seqSeen  map[string]bool
+	defReads map[string][]string
 	Params   map[string]Term // parameter name -> SMT term (for model extraction)
 	sortSeen map[string]bool
 	funSeen  map[string]bool
@@ -39,8 +41,9 @@ const (
 type Item struct {
 	Kind   int
 	Text   string // full SMT command for decl/assume; Bool term for oblig
-	Alt    string // alternative rendering for z3 (lambda arrays, no quantifier); "" = same as Text
-	AltC   string // bounded-instance rendering (under-constrained; only used to find candidate counter-models)
+	Alt    string // row updates as lambda arrays (z3 family); "" = same as Text
+	AltC   string // row updates as bounded instances (under-constrained; only for candidate counter-models)
+	AltU   string // clause with literal-range quantifiers unrolled (equivalent to Text); "" = same as Text
 	Name   string
 	Expect string // "unsat" (default) or "sat"
 	Src    string
@@ -49,7 +52,7 @@ type Item struct {
 }
 
 func newVC(fn string) *VC {
-	return &VC{Fn: fn, Params: map[string]Term{}, sortSeen: map[string]bool{}, funSeen: map[string]bool{}, heapSort: map[string]Sort{}, Unmod: map[string]int{}, Trusted: map[string]bool{}, tags: map[string]int{}, strs: map[string]int{}}
+	return &VC{Fn: fn, Params: map[string]Term{}, seqSeen: map[string]bool{}, defReads: map[string][]string{}, sortSeen: map[string]bool{}, funSeen: map[string]bool{}, heapSort: map[string]Sort{}, Unmod: map[string]int{}, Trusted: map[string]bool{}, tags: map[string]int{}, strs: map[string]int{}}
 }
 
 func (vc *VC) note(f string, a ...interface{}) {
